@@ -93,7 +93,16 @@ fn inner_cfgs(thorough: bool) -> Vec<(String, CircuitConfig)> {
 }
 
 fn outer_cfgs(thorough: bool) -> Vec<(String, CircuitConfig)> {
-    let mut v = vec![("std".to_string(), rec_config(2, 4, 5, 4, 1))];
+    let mut v = vec![
+        ("std".to_string(), rec_config(2, 4, 5, 4, 1)),
+        // the repository's own size-optimised recursion shape: with 37 routed wires the verifier
+        // circuit takes other code paths (two-gate bit splits, Poseidon without the MDS gate, ...)
+        ("narrow37".to_string(), {
+            let mut c = rec_config(2, 4, 5, 4, 1);
+            c.num_routed_wires = 37;
+            c
+        }),
+    ];
     if thorough {
         v.push(("wide".to_string(), {
             let mut c = rec_config(2, 4, 5, 4, 1);
@@ -115,7 +124,7 @@ pub fn build_pairs(ctx: &Ctx, thorough: bool) -> Vec<Pair> {
     let ics = inner_cfgs(thorough);
     let ocs = outer_cfgs(thorough);
     // (program index, inner cfg index, outer cfg index)
-    let mut jobs: Vec<(usize, usize, usize)> = vec![(0, 0, 0), (2, 1, 0)];
+    let mut jobs: Vec<(usize, usize, usize)> = vec![(0, 0, 0), (2, 1, 0), (0, 0, 1)];
     if thorough {
         jobs = Vec::new();
         for (ii, _) in ics.iter().enumerate() {
@@ -124,7 +133,9 @@ pub fn build_pairs(ctx: &Ctx, thorough: bool) -> Vec<Pair> {
             }
         }
         jobs.push((0, 0, 1));
-        jobs.push((2, 1, 2));
+        jobs.push((2, 1, 1));
+        jobs.push((0, 0, 2));
+        jobs.push((2, 1, 3));
         jobs.push((1, 0, 0));
     }
     let pairs: Vec<Option<Pair>> = par_map(jobs.len(), |k| {
